@@ -89,12 +89,14 @@ func c02Head(h int, fs []ref.Node) ref.Node {
 		return rpath(rname("a"), nested(&ref.Paren{Exprs: []ref.Node{rp("b")}}))
 	case 12: // $[p].a: predicates on the context variable, followed by a step
 		return &ref.Path{Steps: []ref.Node{nested(rvar("")), rname("a")}, KeepAt: -1}
+	case 13: // (a)[p].b: a parenthesised step with predicates at the head of a longer path (mapped over an array context)
+		return rpath(nested(&ref.Paren{Exprs: []ref.Node{rp("a")}}), rname("b"))
 	default: // ($v := $; $v[p].a): on a named variable, followed by a step
 		return &ref.Paren{Exprs: []ref.Node{&ref.Assign{Name: "v", Val: rvar("")}, &ref.Path{Steps: []ref.Node{nested(rvar("v")), rname("a")}, KeepAt: -1}}}
 	}
 }
 
-const c02NumHeads = 14
+const c02NumHeads = 15
 
 func c02SpecialDocs() []interface{} {
 	o := func(kv ...interface{}) map[string]interface{} {
